@@ -1424,7 +1424,7 @@ func ruleArgsPerInvocation(w *World, r *Report, rule string) {
 // rules under another rule id.
 func reexportC07(w *World, r *Report, rule string, ids ...string) {
 	sub := NewReport(r.Prop, r.Tier, w)
-	for _, id := range []string{"R07.1", "R07.2", "R07.3", "R07.4", "R07.5", "R07.6", "R07.7", "R07.8"} {
+	for _, id := range []string{"R07.1", "R07.2", "R07.3", "R07.4", "R07.5", "R07.6", "R07.7", "R07.8", "R07.9"} {
 		sub.Rule(id, 0, "")
 	}
 	checkC07(w, sub)
@@ -1441,7 +1441,7 @@ func reexportC07(w *World, r *Report, rule string, ids ...string) {
 // ruleLifetimeTableComplete re-exports the table-before-checks part of C07 for C06.
 func ruleLifetimeTableComplete(w *World, r *Report, rule string) {
 	sub := NewReport(r.Prop, r.Tier, w)
-	for _, id := range []string{"R07.1", "R07.2", "R07.3", "R07.4", "R07.5", "R07.6", "R07.7", "R07.8"} {
+	for _, id := range []string{"R07.1", "R07.2", "R07.3", "R07.4", "R07.5", "R07.6", "R07.7", "R07.8", "R07.9"} {
 		sub.Rule(id, 0, "")
 	}
 	checkC07(w, sub)
